@@ -7,8 +7,8 @@
 (*                                                                         *)
 (* WhoIs, mechanism level: three rounds of  { FindIP(ip) in the session's   *)
 (* host table: found -> return its address;  broadcast "who has ip, tell    *)
-(* hostip";  sleep 50 ms * round }  and then ErrNotFound WITHOUT a last      *)
-(* look at the table.  The table is filled by Session.Parse, never by       *)
+(* hostip";  sleep 50 ms * round }, a last look at the table (LastLook),    *)
+(* and then ErrNotFound.  The table is filled by Session.Parse, never by    *)
 (* WhoIs: an ARP packet of either operation or an IPv4 packet whose sender  *)
 (* address lies in the home LAN (and whose MAC is not the NIC's) creates or *)
 (* re-binds the entry; the latest MAC wins.  An entry answers whether the   *)
@@ -21,8 +21,10 @@
 (*        binds ip was parsed before WhoIs returned;                        *)
 (*   (W3) every frame is a broadcast ARP request for ip from the NIC's own  *)
 (*        addresses; at most three; none when ip is already known.          *)
-(* The code contradicts the second half of (W2): what arrives after the     *)
-(* third request is never looked at (site KfLastAnswerIgnored).             *)
+(* Before commit 27a6daa the code contradicted the second half of (W2):     *)
+(* what arrived after the third request was never looked at (site           *)
+(* KfLastAnswerIgnored, constant LastLook = FALSE).  The repaired code      *)
+(* looks once more after the third wait (LastLook = TRUE: W2b holds).       *)
 (*                                                                         *)
 (* Scan, mechanism level: walk host numbers 1 .. n-1 of the home LAN        *)
 (* (n = host mask), skip the router's and the NIC's address, stop with nil  *)
@@ -36,7 +38,9 @@
 (***************************************************************************)
 EXTENDS Integers, Sequences, FiniteSets, TLC, Json
 
-CONSTANTS Part,        \* "whois" | "scan"
+CONSTANTS LastLook,    \* BOOLEAN: WhoIs looks at the table once more after its third wait (commit 27a6daa); FALSE = the code
+                       \* before that commit (known finding X05:WhoIsLastAnswerIgnored open)
+          Part,        \* "whois" | "scan"
           MaxEv,       \* whois: messages parsed per round
           Bits,        \* scan: set of prefix lengths
           MaxFaults    \* scan: environment deviations (write errors, Close) per run
@@ -89,7 +93,9 @@ Slept == /\ pc = "wait"
          /\ plan' = Append(plan, [fail |-> FALSE, evs |-> evs])
          /\ evs' = <<>> /\ inl' = TRUE
          /\ IF round < 2 THEN pc' = "check" /\ round' = round + 1 /\ res' = res
-                         ELSE pc' = "done" /\ round' = round /\ res' = [r |-> "notfound", mac |-> "none"]
+            ELSE IF LastLook /\ tbl # "absent"                                       \* the last look: the answer to the third request counts
+            THEN pc' = "done" /\ round' = round /\ res' = [r |-> "nil", mac |-> tbl]
+            ELSE pc' = "done" /\ round' = round /\ res' = [r |-> "notfound", mac |-> "none"]
          /\ UNCHANGED <<tbl, sent, learnt, init, cfg, pos, closed, faults>>
 
 WNext == Check \/ Slept \/ \E kind \in Binds \cup Others, when \in Whens : Env(kind, when)
@@ -97,7 +103,8 @@ WNext == Check \/ Slept \/ \E kind \in Binds \cup Others, when \in Whens : Env(k
 \* property level
 W1 == (pc = "done" /\ res.r = "nil") => res.mac = tbl /\ tbl # "absent"
 W2a == (pc = "done" /\ res.r = "notfound") => sent = 3
-W2b == (pc = "done" /\ res.r = "notfound") => ~learnt            \* NOT an invariant of the code: KfLastAnswerIgnored
+W2b == (pc = "done" /\ res.r = "notfound") => ~learnt            \* an invariant iff LastLook (before 27a6daa: KfLastAnswerIgnored)
+W2bIfLastLook == LastLook => W2b
 W3 == sent <= 3 /\ ((pc = "done" /\ res.r = "nil" /\ init.state # "absent") => sent = 0)
 KfLastAnswerIgnored == pc = "done" /\ res.r = "notfound" /\ learnt
 \* the only way to contradict W2b is an answer during the last round
